@@ -768,3 +768,57 @@ func (c *Ctx) dateValueOrigin(v ssa.Value, depth int) string {
 	}
 	return ""
 }
+
+// RuleCaptureToArgs: the numeric value decoded from capture want[i] of the sub-match result is what fn passes as
+// argument i of the (single) call to the target function.
+func (c *Ctx) RuleCaptureToArgs(rule string, fn *ssa.Function, target func(*ssa.Function) bool, want []int64, names []string) {
+	comp := map[ssa.Value]int64{}
+	for _, b := range fn.Blocks {
+		for _, in := range b.Instrs {
+			call, ok := in.(*ssa.Call)
+			if !ok {
+				continue
+			}
+			f := call.Call.StaticCallee()
+			if f == nil || !(f.String() == "strconv.Atoi" || f.String() == "strconv.ParseInt" || f.String() == "strconv.ParseUint") {
+				continue
+			}
+			if k, ok := captureOf(call.Call.Args[0]); ok {
+				for _, r := range *call.Referrers() {
+					if ex, ok := r.(*ssa.Extract); ok && ex.Index == 0 {
+						comp[ex] = k
+					}
+				}
+			}
+		}
+	}
+	var calls []*ssa.Call
+	for _, b := range fn.Blocks {
+		for _, in := range b.Instrs {
+			if call, ok := in.(*ssa.Call); ok {
+				if f := c.StaticCallee(&call.Call); f != nil && target(f) {
+					calls = append(calls, call)
+				}
+			}
+		}
+	}
+	if len(calls) != 1 {
+		c.addc("undecided", rule, fn, fn.Pos(), "constructor call", fmt.Sprintf("%d calls to the constructing function found, expected exactly one", len(calls)), "")
+		return
+	}
+	call := calls[0]
+	for i, w := range want {
+		if i >= len(call.Call.Args) {
+			break
+		}
+		k, ok := comp[stripConv(call.Call.Args[i])]
+		switch {
+		case !ok:
+			c.addc("undecided", rule, fn, call.Pos(), names[i], "argument "+names[i]+" is not the plain numeric decoding of a capture group", "")
+		case k != w:
+			c.addc("violated", rule, fn, call.Pos(), names[i], fmt.Sprintf("argument %s is decoded from capture %d, the written %s is capture %d", names[i], k, names[i], w), "")
+		default:
+			c.addc("discharged", rule, fn, call.Pos(), names[i], fmt.Sprintf("argument %s = numeric value of capture %d", names[i], w), "")
+		}
+	}
+}
